@@ -99,6 +99,11 @@ def uf_instance_axioms(exprs):
             ax += [z3.Implies(t >= 0, z3.And(a >= 0, a * a == t))]
         elif name in ("uf_tanh", "uf_erf"):
             ax += [a > -1, a < 1, z3.Implies(t >= 0, a >= 0), z3.Implies(t <= 0, a <= 0)]
+            # saturation ladder (tanh(10) = 1 - 4.1e-9, tanh(20) = 1 - 8.5e-18; erf(4) = 1 - 1.54e-8,
+            # erf(6) = 1 - 2.15e-17): x * (f(c1 x) - f(c2 x)) stays small for large x
+            for thr, eps in (((10, 4.2e-9), (20, 8.6e-18)) if name == "uf_tanh" else ((4, 1.6e-8), (6, 2.2e-17))):
+                e = z3.RealVal(Fraction(eps))
+                ax += [z3.Implies(t >= thr, a >= 1 - e), z3.Implies(t <= -thr, a <= -1 + e)]
         elif name in ("uf_sin", "uf_cos"):
             ax += [a >= -1, a <= 1]
         elif name == "uf_atan":
